@@ -130,6 +130,18 @@ finding("P50", ["C15"], "open", "ReST docstring with `:return:` followed by `:rt
 finding("P51", ["C15"], "open", "header/args/footer split: the boundary between section and footer is misplaced by a few characters (numpydoc: the last description line or the return type's tail lands in the footer; with the unindented section as `current` the returned section is truncated); the three parts still tile the original exactly")
 finding("P56", ["C20"], "open", "exmod --blacklist <pkg>.<sub> is ignored for a top-level package (the path compared is built as '.sub', never the FQN): the black-listed sub-package is emitted; --whitelist <pkg>.<sub> emits nothing at all")
 finding("P57", ["C16", "C05"], "open", "sqlalchemy parse of a class whose docstring documents the columns loses the [PK]/[FK] markers (the docstring description wins the merge); gen_routes then falls back to the FIRST column as primary key")
+finding(
+    "P59", ["C13"], "open", "sync_properties: one input property used for two outputs in a single call with a wrap template is wrapped twice for the second output (the wrap rewrites the input node in place): Optional[Optional[float]]",
+    witnesses={"C13": [{"multi": True, "eval": False, "wrap": "Optional[{output_param}]", "isrc": "class Q(object):\n    v: float = 0.5\n", "osrc": "class T(object):\n    a: str = 'x'\n\n    def m(self, p: int = 1, q=None):\n        return 1\n", "pairs": [[["Q.v", "attr", ["v", "float", "0.5"], {}], ["T.a", "attr", ["a", "str", "'x'"], {"idx": 0, "names": ["a"], "hasdef": True, "first": None}]], [["Q.v", "attr", ["v", "float", "0.5"], {}], ["T.m.p", "arg", ["p", "int", "1"], {"idx": 0, "names": ["p", "q"], "hasdef": True, "first": "self"}]]]}]},
+)
+finding(
+    "P60", ["C02"], "open", "google docstring whose LAST entry has an empty description (`beta (str):`): the entry is read back as part of the header",
+    witnesses={"C02": [I([["a", {"typ": "int", "doc": "the a"}], ["zeta", {"typ": "int", "default": 3}], ["beta", {"typ": "str", "default": "x"}]], cells=[[0, "google", True]])]},
+)
+finding(
+    "P61", ["C02"], "open", "function with a google docstring: once an earlier entry carries 'Defaults to', an entry with an EMPTY description gets the zero value of its type forced as default, and that overrides the real default of the signature (1e-07 -> 0.0)",
+    witnesses={"C02": [I([["z", {"typ": "str", "doc": "model output.", "default": "A"}], ["u", {"typ": "float", "default": 1e-07}], ["a", {"typ": "float", "default": 1e-07}]], cells=[[2, "google", True]])]},
+)
 finding("P26", ["C07"], "open", "doctrans drops comments inside a rewritten multi-line def header")
 finding("P27", ["C07"], "open", "doctrans turns a one-line `def f(a=1): return a` into invalid Python")
 finding("P28", ["C07"], "open", "doctrans does not recognise a raw docstring r\"\"\"...\"\"\": a second string is inserted")
